@@ -83,7 +83,9 @@ _ID_SUFFIXES = ['', '', 'é', '-語', '_ñx', 'あ', '-2']
 _LOOKALIKES = ['<Lexicon id="zz" version="9">',
                '<LexiconExtension id="zz" version="9" label="phantom">',
                '<Extends id="zz" version="9"/>',
-               "<Lexicon version='9' id='zz' label='x'>"]
+               "<Lexicon version='9' id='zz' label='x'>",
+               # openers and closers of the other constructs a scan has to skip
+               'a <!-- b', 'a --> b', 'a <?b c', 'a ?> b', '<!-- <Lexicon id="zz" version="9">']
 _UNRELATED = {'lmf_version': '1.0', 'lexicons': [{
     'id': 'zz-unrelated', 'version': '0', 'label': 'unrelated', 'language': 'en', 'email': 'e',
     'license': 'l', 'meta': None,
@@ -129,9 +131,8 @@ def _plant_lookalike(draw, res):
                 slots += s.get('examples', [])
     if not slots:
         return False
-    text = draw(st.sampled_from(_LOOKALIKES))
     for k in sorted(set(draw(st.lists(st.integers(0, len(slots) - 1), min_size=1, max_size=4)))):
-        slots[k]['text'] = text
+        slots[k]['text'] = draw(st.sampled_from(_LOOKALIKES))
     return True
 
 
@@ -140,10 +141,10 @@ def _valid_cases(draw):
     res = draw(_documents())
     style = draw(xmlw.styles())
     lookalike = False
-    if draw(st.integers(0, 7)) == 0:
+    if draw(st.integers(0, 3)) == 0:
         lookalike = _plant_lookalike(draw, res)
         if lookalike:
-            style = dict(style, cdata=True)
+            style = dict(style, cdata=True, comments=draw(st.booleans()) or style['comments'])
     return {'resource': res, 'style': style,
             'literal_ws': draw(st.integers(0, 3)) == 0,
             'lookalike': lookalike,
